@@ -821,7 +821,9 @@ def _json_binconv_dec(v):
     if type(v) is list:
         return [_json_binconv_dec(x) for x in v]
     if type(v) is dict:
-        return {_json_binconv_dec(k): _json_binconv_dec(x) for k, x in v.items()}
+        # object KEYS are left alone: the WAMP binary convention is defined for string values; whether a key that
+        # starts with \0 denotes binary is not specified, either reading is accepted (the key stays a string here)
+        return {k: _json_binconv_dec(x) for k, x in v.items()}
     return v
 
 
